@@ -200,6 +200,7 @@ ASSUME['C15'] = DECODER_ASSUMPTIONS
 
 ALL_FILE_MODES = ['c01', 'c02', 'c09', 'c11', 'c12', 'c13', 'c15', 'mix']
 CHECKS['C05'] = [file_run('mix', 150, 6000, ['C05'])] + [file_run(m, 25, 800, ['C05']) for m in ALL_FILE_MODES if m != 'mix']
+CHECKS['C05'].append(dict(harness='h_crash', variant='plain', args=[], quick=2 * 16, thorough=60 * 16, props=['C05'], name='crash'))
 LEVELS['C05'] = 'exploration'
 RULES['C05'] = 'every closed file produced by every generator mode (and copies made by jls_copy) is decoded by the independent decoder: rules R1-R7 of DESIGN 3.3 plus content comparison with the submission model; distinct = (producer, signal types/def classes, levels on disk)'
 ASSUME['C05'] = DECODER_ASSUMPTIONS
@@ -209,7 +210,7 @@ LEVELS['C14'] = 'exploration'
 RULES['C14'] = 'every backend write of every writer run is judged online by the write-once monitor against the previous bytes (shadow copy): appends, header link patches, head-table updates, file header at close; distinct = (mode, rewrite volume classes)'
 ASSUME['C14'] = ['the monitor sees exactly the write()/ftruncate() calls of backend_posix.o (link-time interposition); the reader repair path is out of scope of the property']
 
-CHECKS['C17'] = [file_run('mix', 80, 3000, ['C17'])]
+CHECKS['C17'] = [file_run('mix', 80, 3000, ['C17']), dict(harness='h_crash', variant='plain', args=['--copy-every', '5'], quick=2 * 16, thorough=40 * 16, props=['C17'], name='crash')]
 LEVELS['C17'] = 'exploration'
 RULES['C17'] = 'case = mixed program (several signals/types, omission, annotations, UTC, user data) closed, copied with jls_copy; copy decoded as a closed file and its reader dump compared with the source dump; distinct = (signal mix, levels, omission used)'
 ASSUME['C17'] = ['statistics are compared after rounding to f32 (copy recomputes summaries from the same samples)']
@@ -414,7 +415,7 @@ def run_check(prop, tier, seed, jobs, replay=None):
         hid = hashlib.sha256(('%s|%s' % k).encode()).hexdigest()[:12]
         path = os.path.join(EVID, 'replay', prop, hid + '.json')
         with open(path, 'w') as f:
-            json.dump({'property': prop, 'key': k[1], 'message': rec.get('m'), 'run': rec.get('run'), 'seed': rec.get('seed'), 'idx': rec.get('idx'),
+            json.dump({'property': prop, 'key': k[1], 'message': rec.get('m'), 'run': rec.get('run'), 'seed': rec.get('seed'), 'idx': rec.get('idx'), 'check': rec.get('check'),
                        'tier': tier, 'witness': rec.get('w'), 'occurrences': violn[k]}, f, indent=1)
         print('VIOLATION property=%s replay=%s' % (prop, path))
         print('  key: %s' % k[1])
